@@ -90,6 +90,34 @@ def run(ctx):
                       path=runmodel.fmt_log(r.state), construct=f"{Q}::raised-outcomes={outcomes}-success={success}")
     ctx.floor("R-SUCCESS-GUARD", 5, "abstract exit signatures")
 
+    # ------------------------------------------------------------------ failures are never masked by what a later stage raises
+    ctx.rule("R-NEVER-MASKED", "once a failure / error was raised, a later skip / expected failure cannot select the outcome")
+    kres, kint = runmodel.analyse_kinds(ctx, rt, kinds=("bad", "soft") if ctx.tier == "quick" else runmodel.KINDS)
+    pairs = {}
+    n_fail_exits = 0
+    for r in kres:
+        st_ = r.state
+        framework = r.kind == "exc" and isinstance(r.value, tuple) and r.value and r.value[0] == "framework"
+        if framework or st_.get("ev.phantom", 0):
+            continue
+        firsts = [x for x in (st_.get("exc.bad", None), st_.get("exc.base", None)) if x is not None]
+        if not firsts:
+            continue
+        n_fail_exits += 1
+        # the exception handed to a handler (absent when a non-Exception propagated instead)
+        last = st_.get("ev.dispatched", None) or ("propagates", st_.get("exc.last", ("?", "?"))[1])
+        masked = last[0] == "soft"
+        for first in firsts:
+            pairs.setdefault((first, last[1], masked), r)
+    for (first, last_stage, masked), r in sorted(pairs.items(), key=repr):
+        ctx.check("R-NEVER-MASKED", f"failure/error raised in {first}, outcome selected by the exception from {last_stage}: {'MASKED by a skip / expected failure' if masked else 'outcome stays failing'}",
+                  own_method(ctx, RUNTEST, "RunTest", "_run_prepared_result"), not masked,
+                  f"a failure or error raised in {first} is downgraded when {last_stage} raises a skip or an expected failure afterwards: the outcome is selected from the last "
+                  "recorded exception alone, so the run is reported as skip / expected failure",
+                  path=runmodel.fmt_log(r.state), construct=f"{Q}._run_prepared_result::failure from {first} masked by soft exception from {last_stage}")
+    ctx.check("R-NEVER-MASKED", f"{n_fail_exits} abstract exits with a failing exception recorded examined", rt.node, n_fail_exits >= 10, "implausibly few exits", examined=len(kres),
+              construct=f"{Q}::kind-exits")
+
     # ------------------------------------------------------------------ handler table
     init = own_method(ctx, TESTCASE, "TestCase", "__init__")
     table = None
@@ -244,18 +272,18 @@ def run(ctx):
         ok = bool(src) and esc is None
     ctx.check("R-EXPECT-FORCES", "mismatch arm sets force_failure on every path", et, ok,
               "a mismatch seen by expectThat does not always set self.force_failure = True", construct=f"{TESTCASE}:TestCase.expectThat::sets-flag")
+    # the runner side, decided on the abstract run (no particular statement layout is required):
+    # whenever the flag is set -- or may be set because nothing examined it after the last user
+    # stage -- the run ends unsuccessfully
     rc = own_method(ctx, RUNTEST, "RunTest", "_run_core")
-    g = cfg_of(ctx, rc)
-    lv = live_nodes(g)
-    ff_tests = [n.id for n in g.nodes if n.id in lv and n.kind == "test" and "force_failure" in norm(n.ast.test)]
-    succ = nodes_calling(g, lambda c: dotted(c.func) == "self.result.addSuccess", lv)
-    ok = bool(ff_tests) and bool(succ) and all(g.dominated_by(s, set(ff_tests)) for s in succ)
-    ctx.check("R-EXPECT-FORCES", "force_failure is examined before every success report", rc, ok,
-              "addSuccess is reachable without the force_failure test", construct=f"{Q}._run_core::force-before-success")
-    forced = nodes_calling(g, lambda c: dotted(c.func) == "self._run_user" and c.args and dotted(c.args[0]) == "_raise_force_fail_error", lv)
-    ok = bool(forced) and all(any(b in forced or g.reach([b]).keys() & set(forced) for b, k in g.succ[t] if k == "true") for t in ff_tests)
-    ctx.check("R-EXPECT-FORCES", "a forced failure is raised through the recorder", rc, ok,
-              "force_failure no longer runs _raise_force_fail_error under _run_user", construct=f"{Q}._run_core::forced-raise")
+    n_set = 0
+    for label, suffix, ok, r in runmodel.force_verdicts(kres):
+        n_set += label.startswith("force_failure set")
+        ctx.check("R-EXPECT-FORCES", label, rc, ok,
+                  "an expectThat mismatch (force_failure) does not make the finished test fail on this path: the run ends with "
+                  "a success, a skip or an expected failure", path=runmodel.fmt_log(r.state), construct=f"{Q}._run_core::{suffix}")
+    ctx.check("R-EXPECT-FORCES", "the abstract run reads force_failure and finds it set on some path", rc, n_set >= 1,
+              "no path of the run examines case.force_failure", construct=f"{Q}._run_core::force-read")
     from .common import module_function
     rf = module_function(ctx, RUNTEST, "_raise_force_fail_error")
     ok = any(isinstance(n, ast.Raise) and n.exc is not None and "AssertionError" in norm(n.exc) for n in rf.body)
